@@ -1,0 +1,131 @@
+//go:build verif
+
+package tsi
+
+import (
+	"bytes"
+
+	"github.com/openGemini/openGemini/engine/index/mergeindex"
+)
+
+// More accessors for the C10 check of /verif (series index exactness). Add-only, compiled only
+// with -tags verif; every function calls the unexported function it is named after.
+//   - item encoding: unmarshalTagValue, marshalCompositeTagKey / unmarshalCompositeTagKey, the
+//     prefix getTSIDsByMeasurementName seeks to, and a prefix scan over the table
+//     (TableSearch.Seek + NextItem while the item has the prefix: the loop every search runs);
+//   - what tagFilter.Init derives from a regular expression: extractRegexpPrefix, the escaped
+//     expression, getRegexpFromCache (or-values, suffix matcher, cost), and the remaining
+//     fields of an initialised filter;
+//   - the caches: dropping entries of the series-key cache (an eviction), dropping the tag filter
+//     caches, one tick of the table's periodic flush and the deferred flush callback.
+
+// VerifUnmarshalTagValue is unmarshalTagValue(nil, src): rest of src, value, error.
+func VerifUnmarshalTagValue(src []byte) ([]byte, []byte, error) { return unmarshalTagValue(nil, src) }
+
+// VerifMarshalCompositeTagKey is marshalCompositeTagKey(nil, name, key).
+func VerifMarshalCompositeTagKey(name, key []byte) []byte {
+	return marshalCompositeTagKey(nil, name, key)
+}
+
+// VerifUnmarshalCompositeTagKey is unmarshalCompositeTagKey: rest (= tag key), name, error.
+func VerifUnmarshalCompositeTagKey(src []byte) ([]byte, []byte, error) {
+	return unmarshalCompositeTagKey(src)
+}
+
+// VerifMeasurementPrefix builds the seek key of getTSIDsByMeasurementName with the same calls.
+func VerifMeasurementPrefix(name []byte) []byte {
+	kb := mergeindex.MarshalCommonPrefix(nil, nsPrefixTagToTSIDs)
+	kb = marshalTagValue(kb, marshalCompositeNamePrefix(nil, name))
+	return kb[:len(kb)-1]
+}
+
+// VerifSeriesKeyPrefix builds the seek key of getTSIDBySeriesKey.
+func VerifSeriesKeyPrefix(indexKey []byte) []byte {
+	kb := append([]byte{}, nsPrefixKeyToTSID)
+	kb = append(kb, indexKey...)
+	return append(kb, kvSeparatorChar)
+}
+
+// VerifScanPrefix returns copies of the items TableSearch yields after Seek(prefix) while they
+// carry the prefix.
+func (idx *MergeSetIndex) VerifScanPrefix(prefix []byte) ([][]byte, error) {
+	is := idx.getIndexSearch()
+	defer idx.putIndexSearch(is)
+	ts := &is.ts
+	var out [][]byte
+	ts.Seek(prefix)
+	for ts.NextItem() {
+		if !bytes.HasPrefix(ts.Item, prefix) {
+			break
+		}
+		out = append(out, append([]byte{}, ts.Item...))
+	}
+	return out, ts.Error()
+}
+
+// VerifExtractRegexpPrefix is extractRegexpPrefix (what getRegexpPrefix caches).
+func VerifExtractRegexpPrefix(value []byte) ([]byte, []byte) {
+	p, e := extractRegexpPrefix(append([]byte{}, value...))
+	return append([]byte{}, p...), append([]byte{}, e...)
+}
+
+// VerifEscapeRegexp is tagCharsRegexpEscaper.Replace.
+func VerifEscapeRegexp(expr string) string { return tagCharsRegexpEscaper.Replace(expr) }
+
+// VerifRegexpCacheValue is getRegexpFromCache(expr): or-values, the suffix matcher, its cost and
+// the literal suffix.
+func VerifRegexpCacheValue(expr []byte) ([]string, func([]byte) bool, uint64, string, error) {
+	rcv, err := getRegexpFromCache(append([]byte{}, expr...))
+	return rcv.orValues, rcv.reMatch, rcv.reCost, rcv.literalSuffix, err
+}
+
+// IsEmptyMatch reports tf.isEmptyMatch.
+func (v *VerifTagFilter) IsEmptyMatch() bool { return v.tf.isEmptyMatch }
+
+// MatchCost reports tf.matchCost.
+func (v *VerifTagFilter) MatchCost() uint64 { return v.tf.matchCost }
+
+// HasSuffixMatcher reports whether Init set tf.reSuffixMatch.
+func (v *VerifTagFilter) HasSuffixMatcher() bool { return v.tf.reSuffixMatch != nil }
+
+// VerifEvictSeriesKeys drops every entry of the series-key -> tsid cache except those of the
+// given index keys that are in the cache now (an eviction: the cache becomes a subset of what it
+// was). It returns how many entries were kept.
+func (idx *MergeSetIndex) VerifEvictSeriesKeys(keep [][]byte) (int, error) {
+	type kv struct {
+		key []byte
+		id  uint64
+	}
+	var kept []kv
+	for _, k := range keep {
+		var id uint64
+		ok, err := idx.cache.GetTSIDFromTSIDCache(&id, k)
+		if err != nil {
+			return 0, err
+		}
+		if ok {
+			kept = append(kept, kv{k, id})
+		}
+	}
+	idx.cache.SeriesKeyToTSIDCache.Reset()
+	for i := range kept {
+		if err := idx.cache.PutTSIDToTSIDCache(&kept[i].id, kept[i].key); err != nil {
+			return 0, err
+		}
+	}
+	return len(kept), nil
+}
+
+// VerifDropFilterCaches resets the tag filter cache and the filter cost cache (an eviction of
+// all their entries).
+func (idx *MergeSetIndex) VerifDropFilterCaches() {
+	idx.cache.tagFilterCache.Reset()
+	idx.cache.TagFilterCostCache.Reset()
+}
+
+// VerifPeriodicFlush is one tick of the table's raw-items flusher (non-final flush); true = the
+// flush callback (invalidateTagCache) is owed and will not be run by the table's ticker.
+func (idx *MergeSetIndex) VerifPeriodicFlush() bool { return idx.tb.VerifPeriodicFlush() }
+
+// VerifFlushCallback runs the flush callback the table's 10 s ticker would run.
+func (idx *MergeSetIndex) VerifFlushCallback() { idx.tb.VerifFlushCallback() }
